@@ -7,7 +7,7 @@ import (
 func init() {
 	register(&Prop{
 		ID:   "C12",
-		Rule: "action trees (depth <= 3, fan-out <= 3, sibling order values distinct incl. negatives) whose nodes carry any subset of {set, template, log, ext trace, abort} listed in random order, with conditions absent / constant true / constant false / {{ eq .flag \"yes\" }} on data no action writes / not-a-boolean; always rendered to YAML and decoded by the toolkit. Observables: the whole listener event sequence (OnBefore/OnAfter(err?)/OnLog + trace markers, labelled by action), returned error, final data vs the Coq interpreter; Go side: events well nested with matching labels, nothing but failing OnAfter events after the first failure, no panic. Non-trivial: tree has >= 2 siblings somewhere and a false/invalid condition or an abort. Distinct by Gallina term. Every tree is executed a second time by another executor with its own listener and extension actions: same events, same outcome, same data. Conditions rendering a data key whose text is padded with blanks; set operations with an empty payload; several sets below one path.",
+		Rule: "action trees (depth <= 3, fan-out <= 3, sibling order values distinct incl. negatives) whose nodes carry any subset of {set, template, log, ext trace, abort} listed in random order, with conditions absent / constant true / constant false / {{ eq .flag \"yes\" }} on data no action writes / not-a-boolean; always rendered to YAML and decoded by the toolkit. Observables: the whole listener event sequence (OnBefore/OnAfter(err?)/OnLog + trace markers, labelled by action), returned error, final data vs the Coq interpreter; Go side: events well nested with matching labels, nothing but failing OnAfter events after the first failure, no panic. Non-trivial: tree has >= 2 siblings somewhere and a false/invalid condition or an abort. Distinct by Gallina term. Every tree is executed a second time by another executor with its own listener and extension actions: same events, same outcome, same data. Conditions rendering a data key whose text is padded with blanks; set operations with an empty payload; several sets below one path. Sibling order values from {-12,-3,-2,0,5,10,100}; every 200th case: ONE executor for 150-250 failing runs then a good one, errors.Is on a nested set operation's error, a template operation whose action is never closed.",
 		Gen: func(r *rand.Rand, tier string, idx int) Case {
 			if idx%200 == 7 {
 				return c12ExecutorReuse(r, idx)
